@@ -223,6 +223,7 @@ def scenarios(chart, rng, limit):
                 out.append((c, h, iv, c, 0x02, 0, 0, 1, 0))          # queue empty, macrostep not yet reported
                 out.append((c, h, iv, c, 0x22, 0, 0, 0, 0))          # idle
                 out.append((c, h, iv, c, 0x22, 0, 0, 0, 1))          # cancelled while idle
+                out.append((c, h, iv, c, 0x26, 0, 0, 0, 1))          # the finalising step after a cancel: whole configuration and all invocations still there
                 out.append((c, h, iv, c, 0x06 if not topfinal else 0x07, 0, 0, 0, 0))
                 out.append((c, h, iv, c, 0x16, 0, 0, 0, 0))
     out = sorted(set(out))
